@@ -513,6 +513,18 @@ fn build(p: &Sexp, env: &Env) -> AnyView {
                         let sc = Owner::current_shared_context().unwrap();
                         format!("nohyd[{},{}]", sc.get_is_hydrating(), usize::MAX - sc.next_id().into_inner())
                     }),
+                    #[cfg(feature = "sandboxed")]
+                    5 => match use_context::<leptos_axum::ResponseOptions>() {
+                        // the response headers a page handler of leptos_axum (pipeline 3) collects
+                        None => "noopts".to_string(),
+                        Some(opts) => {
+                            opts.append_header(
+                                axum::http::HeaderName::from_static("x-iso"),
+                                axum::http::HeaderValue::from_str(&format!("{r}-{id}")).unwrap(),
+                            );
+                            "opts".to_string()
+                        }
+                    },
                     4 => Owner::with_hydration(move || {
                         let sc = Owner::current_shared_context().unwrap();
                         format!("hyd[{},{}]", sc.get_is_hydrating(), sc.next_id().into_inner())
@@ -1068,24 +1080,67 @@ mod real_axum {
         })
     }
 
+    type Handler = std::rc::Rc<dyn Fn(Request<Body>) -> Pin<Box<dyn Future<Output = axum::response::Response> + Send>>>;
+    thread_local! {
+        /// program and environment of the page requests of the current run, by request number
+        pub static REQS: RefCell<HashMap<usize, (Sexp, Env)>> = RefCell::new(HashMap::new());
+        /// one handler per streaming mode, shared by all requests of a run as in a server
+        /// (`Router::new().fallback(leptos_axum::render_app_to_stream_with_context(..))`)
+        pub static HANDLERS: RefCell<HashMap<i64, Handler>> = RefCell::new(HashMap::new());
+    }
+
+    /// the request number is the last path segment / 10000 (see `request_path`)
+    fn shared_context() {
+        let parts = use_context::<axum::http::request::Parts>();
+        let path = parts.map(|p| p.uri.path().to_string()).unwrap_or_default();
+        let idx = path.rsplit('/').next().and_then(|s| s.parse::<usize>().ok()).unwrap_or(0) / 10000;
+        request_context(idx, false, &path);
+    }
+
+    fn shared_app() -> AnyView {
+        let idx = use_context::<Tag0>().map(|t| t.0 - 100).unwrap_or(0) as usize;
+        match REQS.with(|r| r.borrow().get(&idx).cloned()) {
+            Some((prog, env)) => page_app(&prog, &env),
+            None => "no such request".into_any(),
+        }
+    }
+
+    fn handler(ooo: i64) -> Handler {
+        HANDLERS.with(|h| {
+            h.borrow_mut()
+                .entry(ooo)
+                .or_insert_with(|| match ooo {
+                    1 => std::rc::Rc::new(leptos_axum::render_app_to_stream_with_context(shared_context, shared_app)),
+                    2 => std::rc::Rc::new(leptos_axum::render_app_async_with_context(shared_context, shared_app)),
+                    _ => std::rc::Rc::new(leptos_axum::render_app_to_stream_in_order_with_context(shared_context, shared_app)),
+                })
+                .clone()
+        })
+    }
+
     /// one page request through the shipped handlers
-    pub fn page_request(
-        ooo: i64,
-        path: &str,
-        app_fn: impl Fn() -> AnyView + Clone + Send + Sync + 'static,
-        additional_context: impl Fn() + 'static + Clone + Send + Sync,
-    ) -> Pin<Box<dyn Future<Output = PinnedStream>>> {
+    pub fn page_request(ooo: i64, path: &str, idx: usize, prog: Sexp, env: Env) -> Pin<Box<dyn Future<Output = PinnedStream>>> {
+        REQS.with(|r| r.borrow_mut().insert(idx, (prog, env)));
         let req = Request::builder().method("GET").uri(path).body(Body::empty()).unwrap();
-        let resp: Pin<Box<dyn Future<Output = axum::response::Response> + Send>> = match ooo {
-            1 => leptos_axum::render_app_to_stream_with_context(additional_context, app_fn)(req),
-            2 => leptos_axum::render_app_async_with_context(additional_context, app_fn)(req),
-            _ => leptos_axum::render_app_to_stream_in_order_with_context(additional_context, app_fn)(req),
-        };
+        let resp = handler(ooo)(req);
         Box::pin(async move {
             let resp = resp.await;
+            // status and the headers set through ResponseOptions are part of the response
+            let mut head = format!("[status {}]", resp.status().as_u16());
+            for v in resp.headers().get_all("x-iso") {
+                head.push_str(&format!("[x-iso {}]", v.to_str().unwrap_or("?")));
+            }
             let data = resp.into_body().into_data_stream();
-            Box::pin(data.map(|c| c.map(|b| String::from_utf8_lossy(&b).to_string()).unwrap_or_default())) as PinnedStream
+            let data = data.map(|c| c.map(|b| String::from_utf8_lossy(&b).to_string()).unwrap_or_default());
+            Box::pin(once(async move { head }).chain(data)) as PinnedStream
         })
+    }
+
+    pub fn reset() {
+        let a = SFN_ENVS.with(|e| std::mem::take(&mut *e.borrow_mut()));
+        let b = REQS.with(|e| std::mem::take(&mut *e.borrow_mut()));
+        let c = HANDLERS.with(|e| std::mem::take(&mut *e.borrow_mut()));
+        drop((a, b, c));
     }
 }
 
@@ -1127,6 +1182,36 @@ struct Req {
     owner_seen: Option<usize>,
 }
 
+/// first thing run under a request's new root owner: register it, provide the request's tags
+fn request_context(idx: usize, is_sfn: bool, path: &str) {
+    if let Some(o) = Owner::current() {
+        W.with(|w| w.borrow_mut().roots.push((o.debug_id(), idx)));
+    }
+    forget_root_on_cleanup(idx);
+    provide_context(Tag0(100 + idx as i64));
+    provide_context(Tag2(10000 * idx as i64 + 1));
+    if !is_sfn {
+        provide_context(PageOnly(1000 * idx as i64 + 999));
+        provide_context(leptos_router::location::RequestUrl::new(path));
+    }
+    if let Some(sc) = Owner::current_shared_context() {
+        sc.set_is_hydrating(true);
+    }
+    let canary = StoredValue::new(500 + idx as i64);
+    W.with(|w| w.borrow_mut().canaries.insert(idx, canary));
+}
+
+/// the application of a page request: its view program, kept open by the hidden final gate
+fn page_app(prog: &Sexp, env: &Env) -> AnyView {
+    let app = build(prog, env);
+    let final_rx = env.gates[env.gates.len() - 1].clone();
+    let hold = Suspend::new(async move {
+        let _ = final_rx.await;
+        ""
+    });
+    (app, hold).into_any()
+}
+
 struct Opts {
     ooo: i64,
     pipeline: i64,
@@ -1161,42 +1246,16 @@ impl Req {
             sigs: Default::default(),
         };
         let prog = self.prog.clone();
-        let final_rx = env.gates[n - 1].clone();
         let is_sfn = prog.at(0).num() == 22 && matches!(prog.at(0), Num(_));
         let path = request_path(&prog, idx);
         let app_fn = {
             let env = env.clone();
             let prog = prog.clone();
-            move || {
-                let app = build(&prog, &env);
-                let final_rx = final_rx.clone();
-                let hold = Suspend::new(async move {
-                    let _ = final_rx.await;
-                    ""
-                });
-                (app, hold).into_any()
-            }
+            move || page_app(&prog, &env)
         };
         let additional_context = {
             let path = path.clone();
-            move || {
-                // first thing run under the new root owner: register it, provide the request's tag
-                if let Some(o) = Owner::current() {
-                    W.with(|w| w.borrow_mut().roots.push((o.debug_id(), idx)));
-                }
-                forget_root_on_cleanup(idx);
-                provide_context(Tag0(100 + idx as i64));
-                provide_context(Tag2(10000 * idx as i64 + 1));
-                if !is_sfn {
-                    provide_context(PageOnly(1000 * idx as i64 + 999));
-                    provide_context(leptos_router::location::RequestUrl::new(&path));
-                }
-                if let Some(sc) = Owner::current_shared_context() {
-                    sc.set_is_hydrating(true);
-                }
-                let canary = StoredValue::new(500 + idx as i64);
-                W.with(|w| w.borrow_mut().canaries.insert(idx, canary));
-            }
+            move || request_context(idx, is_sfn, &path)
         };
         if is_sfn {
             #[cfg(feature = "sandboxed")]
@@ -1212,7 +1271,7 @@ impl Req {
         #[cfg(feature = "sandboxed")]
         if o.pipeline == 3 {
             // the shipped axum handlers: build_response happens at the first poll
-            self.main = Main::Handler(real_axum::page_request(o.ooo, &path, app_fn, additional_context));
+            self.main = Main::Handler(real_axum::page_request(o.ooo, &path, idx, prog.clone(), env.clone()));
             self.flag.0.store(true, Ordering::SeqCst);
             return;
         }
@@ -1370,10 +1429,7 @@ fn reset_world() {
     let old = W.with(|w| std::mem::take(&mut *w.borrow_mut()));
     drop(old);
     #[cfg(feature = "sandboxed")]
-    {
-        let old = real_axum::SFN_ENVS.with(|e| std::mem::take(&mut *e.borrow_mut()));
-        drop(old);
-    }
+    real_axum::reset();
     let o = Owner::new_root(None);
     o.unset();
 }
